@@ -250,6 +250,10 @@ func main() {
 		os.Exit(2)
 	}
 	c.M = m
+	if err := m.SelfTest(); err != nil {
+		fmt.Fprintln(os.Stderr, "reference model self-test failed:", err)
+		os.Exit(2)
+	}
 	f, ok := registry[*prop]
 	if !ok {
 		fmt.Fprintln(os.Stderr, "unknown property", *prop)
